@@ -3,6 +3,7 @@ package hotline
 import (
 	"bufio"
 	"io"
+	"path/filepath"
 )
 
 // 12-byte handshake: outcome and reply bytes depend only on the bytes, not on the partition into reads.
@@ -127,7 +128,6 @@ func VH_C02_ScannerChunks() {
 
 // ---- ReadFull sites: upload stream header + data through receiveFile ---------------------------------------------
 
-
 func VH_C02_UploadStreamChunks() {
 	name := vBytesN("name", 2)
 	data := vBytesN("data", 3)
@@ -166,4 +166,52 @@ func VH_C02_UploadStreamWithResourceFork() {
 	vAssertEqBytes("upload3_data_exact_whole", fb.b, data)
 	vAssertEqBytes("upload3_rsrc_exact_chunked", ra.b, rsrc)
 	vAssertEqBytes("upload3_rsrc_exact_whole", rb.b, rsrc)
+}
+
+func c02ItemHeader(isDir bool, segs ...string) []byte {
+	var p []byte
+	for _, s := range segs {
+		p = append(p, 0, 0, byte(len(s)))
+		p = append(p, s...)
+	}
+	ty := byte(0)
+	if isDir {
+		ty = 1
+	}
+	h := []byte{byte((len(p) + 4) >> 8), byte(len(p) + 4), 0, ty, 0, byte(len(segs))}
+	return append(h, p...)
+}
+
+func c02NSFile(p string) []byte {
+	for i, n := range vNSNames {
+		if filepath.Clean(n) == p {
+			return vNSData[i]
+		}
+	}
+	return nil
+}
+
+// A folder upload of two files on one transfer connection gives the same two files whether the client's bytes
+// arrive all at once (each read returns everything available, so reads run past item boundaries), one byte per read,
+// or in pieces of 7 or 50 bytes (cuts inside headers, and reads that straddle the end of the first file).
+func VH_C02_FolderUploadSegmentation_sym() {
+	vUnroll(200)
+	d1 := vBytesN("data_first", 2)
+	d2 := vBytesN("data_second", 2)
+	in := c02ItemHeader(false, "f.bin")
+	s1 := c02UploadStream([]byte("f.bin"), d1)
+	in = append(in, refU32(len(s1))...)
+	in = append(in, s1...)
+	in = append(in, c02ItemHeader(false, "g.bin")...)
+	s2 := c02UploadStream([]byte("g.bin"), d2)
+	in = append(in, refU32(len(s2))...)
+	in = append(in, s2...)
+	piece := []int{0, 1, 7, 50}[vChoice("piece_size", 4)]
+	vNSNames, vNSData, vNSWrites, vNSDirs = []string{"/r/up"}, [][]byte{nil}, 0, nil
+	c := &vRW{r: &vChunkReader{data: in, whole: true, each: piece}}
+	ft := &FileTransfer{bytesSentCounter: &WriteCounter{}, FolderItemCount: []byte{0, 2}}
+	err := UploadFolderHandler(c, "/r/up", ft, &vNSStore{}, vLogger(), false)
+	vAssert("folder_upload_ok_for_every_segmentation", err == nil)
+	vAssertEqBytes("first_file_same_for_every_segmentation", c02NSFile("/r/up/f.bin"), d1)
+	vAssertEqBytes("second_file_same_for_every_segmentation", c02NSFile("/r/up/g.bin"), d2)
 }
